@@ -7,7 +7,7 @@ PROPERTY_ID = "C11"
 RULE = ("one-step programs argon2_at / argon2::<T>: full product type {d,i,id} x version {0x10,0x13} x t 1..=4 x p 1..=5 x m in {8p,8p+1,8p+3,8p+7,16p,33p}; "
         "m in {516p,520p,520p+5} for p in {1,2,3} (segment length > 128: address block refresh inside a segment), m = 2048 for p in {1,4}; every tag length "
         "4..=300 on the smallest memory of each type; password/key/AAD lengths {0,1,8,16,32} and salt lengths {8,9,16,32}; array-returning vs slice-filling "
-        "entry points for every instantiated T; parameter setters on their boundaries; every sequence of <= 3 (thorough 4) setter calls in any order (the parameter object caches derived sizes); oracle = python RFC 9106 model; distinct = program text")
+        "entry points for every instantiated T; the J1 -> reference-block mapping (hook) at every step of its floor-of-floor formula for reference areas of 1..65536 blocks; parameter setters on their boundaries; every sequence of <= 3 (thorough 4) setter calls in any order (the parameter object caches derived sizes); oracle = python RFC 9106 model; distinct = program text")
 ASSUMPTIONS = ["python Argon2 model validated by the three RFC 9106 section 5 vectors and 42 OpenSSL 3.5 cross vectors (both versions, p=1, segment length 130, tags 4..128)",
                "memory above 2048 KiB is not explored", "salts shorter than 8 bytes and tags shorter than 4 bytes are outside the claim"]
 
@@ -20,7 +20,14 @@ def builds_needed(tier):
 
 # Own corpus re-run on other builds of the crate (mc/core.py: extra builds). Every observation is compared with the same model.
 def extra_builds(tier):
-    return [("relchk", None), ("avx", None), ("avx2", None)]
+    # vector code reaches Argon2 only through BLAKE2b (H0 and the variable-length hash H'): the tag-length and input-length shards
+    # drive every BLAKE2b shape Argon2 produces; the block-filling grid is re-run on the checked-arithmetic build
+    def vec(fname, arg):
+        return fname in ("shard_tags", "shard_inputs")
+
+    def chk(fname, arg):
+        return fname not in ("shard_big", "shard_wide")
+    return [("relchk", chk), ("avx", vec), ("avx2", vec), ("native", vec)]
 
 
 
@@ -65,7 +72,68 @@ def shards(tier):
             sh.append(("shard_wide", ty))
     sh.append(("shard_setters", None))
     sh += [("shard_builder", ty) for ty in ("d", "i", "id")]
+    sh += [("shard_index", i) for i in range(8)]
     return sh
+
+
+def isqrt(n):
+    import math
+    return math.isqrt(n)
+
+
+def index_j1_values(W):
+    """J1 values around every step of y = floor(W * floor(J1^2 / 2^32) / 2^32): for each k the smallest J1 with y >= k, its two
+    neighbours on either side, plus the extremes; for large W a spread of steps"""
+    vals = {0, 1, 2, 65535, 65536, 65537, (1 << 31) - 1, 1 << 31, (1 << 31) + 1, (1 << 32) - 2, (1 << 32) - 1}
+    if W <= 0:
+        return sorted(vals)
+    ks = range(1, W) if W <= 300 else sorted(set(list(range(1, 40)) + list(range(W - 40, W)) + [W * i // 97 for i in range(1, 97)] + [1 << i for i in range(1, W.bit_length())]))
+    for k in ks:
+        # y >= k  <=>  W*x >= k*2^32  <=>  x >= ceil(k*2^32/W) ;  x = floor(J1^2/2^32) >= X  <=>  J1 >= ceil(sqrt(X*2^32))
+        X = -((-k << 32) // W)
+        J = isqrt(X << 32)
+        if J * J < (X << 32):
+            J += 1
+        # also the boundary of the fused formula floor(W*J1^2 / 2^64) >= k
+        J2 = isqrt(-((-k << 64) // W))
+        for c in (J, J2):
+            for d in (-2, -1, 0, 1, 2):
+                if 0 <= c + d < (1 << 32):
+                    vals.add(c + d)
+    return sorted(vals)
+
+
+def shard_index(part, tier):
+    """the J1 -> reference index mapping (hook), at every step of its floor-of-floor formula: reference-area sizes from 1 up to several
+    thousand blocks, both passes, every slice, first / second / last index of a segment, same lane and other lane"""
+    ck = core.Checker(PROPERTY_ID)
+    cases = []
+    n = 0
+    geoms = [(8, 1), (9, 1), (16, 1), (24, 3), (33, 1), (64, 2), (100, 1), (520, 1), (1045, 2), (4096, 1)] + ([(8192, 1), (65536, 4), (1 << 20, 1)] if tier == "thorough" else [(65536, 4)])
+    for (m, p) in geoms:
+        SL = (4 * p * (m // (4 * p))) // p // 4
+        for r in (0, 1):
+            for s in range(4):
+                for idx in sorted({0, 1, 2, SL // 2, SL - 1}):
+                    for same in (1, 0):
+                        if r == 0 and s == 0 and (idx < 2 or not same):
+                            continue        # the first two blocks of a lane are not computed; slice 0 of pass 0 references its own lane only
+                        if idx >= SL:
+                            continue
+                        n += 1
+                        if n % 8 != part:
+                            continue
+                        _, W = argon2.ref_index(m, p, r, s, idx, bool(same), 0)
+                        if W <= 0:
+                            continue
+                        js = index_j1_values(W)
+                        for off in range(0, len(js), 400):
+                            chunk = js[off:off + 400]
+                            exp = ",".join(str(argon2.ref_index(m, p, r, s, idx, bool(same), j)[0]) for j in chunk)
+                            cases.append((["argon2_index %d %d %d %d %d %d %s" % (m, p, r, s, idx, same, ",".join(map(str, chunk)))], [exp], None))
+    ck.run(cases)
+    ck.stats.states = len(cases)
+    return ck.stats
 
 
 def builder_sequences(depth):
